@@ -761,6 +761,53 @@ func (s *src) t5() (string, error) {
 	return b.String(), nil
 }
 
+// ---------------------------------------------------------------------------------------------
+// T6: the predeclared type names `isBuiltinType` knows (imports.go): names that are never qualified with the struct package
+
+func (s *src) t6() (string, error) {
+	fd := s.funcDecl("imports.go", "Imports", "isBuiltinType")
+	if fd == nil || fd.Body == nil {
+		return "", fmt.Errorf("T6: Imports.isBuiltinType not found")
+	}
+	var names []string
+	found := false
+	for _, st := range fd.Body.List {
+		sw, ok := st.(*ast.SwitchStmt)
+		if !ok {
+			continue
+		}
+		found = true
+		for _, c := range sw.Body.List {
+			cc := c.(*ast.CaseClause)
+			isTrue := len(cc.Body) == 1 && strings.Join(strings.Fields(s.str(cc.Body[0])), " ") == "return true"
+			if cc.List == nil {
+				if strings.Join(strings.Fields(s.str(cc.Body[0])), " ") != "return false" {
+					return "", fmt.Errorf("T6: default clause of isBuiltinType is not `return false`")
+				}
+				continue
+			}
+			if !isTrue {
+				return "", fmt.Errorf("T6: a case of isBuiltinType does not `return true`")
+			}
+			for _, e := range cc.List {
+				bl, ok := e.(*ast.BasicLit)
+				if !ok || bl.Kind != token.STRING {
+					return "", fmt.Errorf("T6: non-literal case in isBuiltinType")
+				}
+				v, _ := strconv.Unquote(bl.Value)
+				names = append(names, v)
+			}
+		}
+	}
+	if !found || len(fd.Body.List) != 1 {
+		return "", fmt.Errorf("T6: isBuiltinType is not a single switch over string literals")
+	}
+	var b strings.Builder
+	b.WriteString("/- REGENERATED by `pgtharness extract` (T6) from /repo/imports.go (Imports.isBuiltinType). Do not edit. -/\nnamespace PGT.Generated\n\n")
+	fmt.Fprintf(&b, "/-- the type names `isBuiltinType` answers true for, in source order -/\ndef builtinTypes : List String := %s\n\nend PGT.Generated\n", leanList(names))
+	return b.String(), nil
+}
+
 func writeIfChanged(path, content string) error {
 	old, err := ioutil.ReadFile(path)
 	if err == nil && string(old) == content {
@@ -792,6 +839,7 @@ func Run(repo, outDir string) map[string]string {
 	do("T3", "LookupOrder.lean", s.t3)
 	do("T4", "MapRanges.lean", func() (string, error) { return t4(repo) })
 	do("T5", "Texts.lean", s.t5)
+	do("T6", "Builtins.lean", s.t6)
 	return failed
 }
 
